@@ -1962,7 +1962,8 @@ class Class(Object):
         """
         try:
             return self.all_members["__init__"].parameters  # type: ignore[union-attr]
-        except KeyError:
+        except (KeyError, AliasResolutionError, CyclicAliasError):
+            # No `__init__` method, or one that is an alias we cannot resolve.
             return Parameters()
 
     @property
